@@ -261,7 +261,7 @@ theorem tolerated_answers_exit_zero :
     (run "u" "add foo" [.fault 90 "ALREADY_ADDED: foo"]).p.exit = 0 ∧
     (run "u" "shutdown" [.fault 6 "SHUTDOWN_STATE"]).p.exit = 0 ∧
     -- and the same codes where they are not tolerated
-    (run "u" "start foo" [.ok (.str "3.0"), .fault 70 "NOT_RUNNING: foo"]).p.exit = 7 ∧
+    (run "u" "start foo" [.ok (.str "3.0"), .fault 50 "SPAWN_ERROR: foo"]).p.exit = 7 ∧
     (run "u" "reload" [.fault 6 "SHUTDOWN_STATE"]).p.exit = 1 := by decide
 
 /-! ## status exits 3 when a shown process is in a stopped state -/
@@ -285,12 +285,19 @@ theorem status_exit_3 (infos : List Info) (s : S) (h : s.err = none) :
       have := ih (setExit (K do_status_a14) s) e.2
       rw [this.1, e.1]
       refine ⟨?_, this.2⟩
-      simp [hi, ctl_gen]
+      rw [hi]
+      have hk : K do_status_a14 = 3 := by decide
+      simp [hk]
     · have hg : ¬ onState do_status_g6 i.state = true := by simpa [ctl_gen] using hi
       rw [if_neg hg]
       have := ih s h
       rw [this.1]
-      exact ⟨by simp [hi], this.2⟩
+      have hf : STOPPED_STATES.contains i.state = false := by
+        cases hc : STOPPED_STATES.contains i.state
+        · rfl
+        · exact absurd hc hi
+      rw [hf]
+      exact ⟨by simp, this.2⟩
 
 /-- end to end for `status` without names -/
 example : (run "u" "status" [.ok (.str "3.0"), .ok (.infos [⟨"a", "a", 20, "RUNNING", "", 5⟩, ⟨"b", "b", 0, "STOPPED", "", 0⟩])]).p.exit = 3 := by
